@@ -32,10 +32,11 @@ import (
 
 // nodeVariant is a node-local configuration of the replica under test.
 type nodeVariant struct {
-	Name   string
-	Flush  bool // flush the write cache after every block
-	GC     bool // RemoveUntraceableBlocks + a GC step after every flush
-	Latest bool // KeepOnlyLatestState
+	Name    string
+	Flush   bool // flush the write cache after every block
+	GC      bool // RemoveUntraceableBlocks + a GC step after every flush
+	Latest  bool // KeepOnlyLatestState
+	Restart bool // the node is restarted before the last block of the history and again before the reads
 }
 
 func (v nodeVariant) cfg(c *config.Blockchain) {
@@ -54,10 +55,18 @@ var (
 	vGC            = nodeVariant{Name: "prune-gc", Flush: true, GC: true}
 	vLatest        = nodeVariant{Name: "latest", Flush: true, Latest: true}
 	vLatestGC      = nodeVariant{Name: "latest-gc", Flush: true, Latest: true, GC: true}
+	// restarts: the state module is re-initialised from the flushed store (Init),
+	// the in-memory trie is rebuilt from a hash node
+	vArchivalRestart = nodeVariant{Name: "archival-restart", Flush: true, Restart: true}
+	vGCRestart       = nodeVariant{Name: "prune-gc-restart", Flush: true, GC: true, Restart: true}
+	// GC mode without any flush: everything, inactive records included, sits in the write cache
+	vGCCached = nodeVariant{Name: "prune-gc-cached", GC: true}
 )
 
+var allVariants = []nodeVariant{vArchival, vArchivalFlush, vGC, vLatest, vLatestGC, vArchivalRestart, vGCRestart, vGCCached}
+
 func variantByName(n string) nodeVariant {
-	for _, v := range []nodeVariant{vArchival, vArchivalFlush, vGC, vLatest, vLatestGC} {
+	for _, v := range allVariants {
 		if v.Name == n {
 			return v
 		}
@@ -88,26 +97,25 @@ func families(thorough bool) []famSpec {
 
 // variantsOf returns the node variants history number i of a family runs on.
 func variantsOf(f famSpec, i int, thorough bool) []nodeVariant {
-	a := vArchival
-	if i%2 == 1 {
-		a = vArchivalFlush
-	}
+	a := []nodeVariant{vArchival, vArchivalFlush, vArchival, vArchivalRestart}[i%4]
 	if f.Pruned {
 		if thorough {
-			return []nodeVariant{a, vGC, vLatest, vLatestGC}
+			return []nodeVariant{a, vGC, vLatest, vLatestGC, vGCRestart}
 		}
-		return []nodeVariant{a, vGC, vLatest}
+		return []nodeVariant{a, vGC, vLatest, []nodeVariant{vLatestGC, vGCRestart}[i%2]}
 	}
 	return []nodeVariant{a}
 }
 
 type caseRec struct {
+	Kind    string   `json:"kind,omitempty"` // "" = history run; else the extension family (ext_*_test.go)
 	Family  string   `json:"family"`
 	Pad     int      `json:"pad"`
 	History []string `json:"history"`
 	Variant string   `json:"variant"`
 	Height  uint32   `json:"height"`
 	Focus   bool     `json:"focus,omitempty"`
+	Top     uint32   `json:"top,omitempty"` // extension families: the chain is grown to this height
 	Oracle  string   `json:"oracle"`
 	Class   string   `json:"class"`
 	Call    string   `json:"call"`
@@ -117,7 +125,7 @@ type caseRec struct {
 
 type counters struct {
 	histRuns, blocks, heights, keys, finds, seeks, storeSeeks, gets, proofsOK, proofsRefused, crossProofs,
-	histInv, histInvHalt, liveInv, deepRoots, nonRetained vk.Counter
+	histInv, histInvHalt, liveInv, deepRoots, nonRetained, extRuns, winStates, winInv, rpcStates, rpcCalls, rpcInvEqual, rpcSessions, rejected, inflightPoints, currentReads, resets vk.Counter
 	minKeys, maxKeys int64
 	mu               sync.Mutex
 }
@@ -128,6 +136,7 @@ type ctx struct {
 	roots    *vk.Set
 	states   *vk.Set
 	deepSeen sync.Map // family/root -> digest of map_h
+	rpcSeen  sync.Map // family/root -> the rpc family did its exhaustive pass
 	deepAll  bool     // replay: no dedup
 }
 
@@ -151,6 +160,9 @@ type run struct {
 	outcomes map[string]struct{}
 	loc      struct{ finds, seeks, storeSeeks, gets, proofsOK, proofsRefused, crossProofs, histInv, histInvHalt int }
 	viol     []*caseRec
+	kind     string // extension family the run belongs to ("" = plain history run)
+	top      uint32
+	sc       *chainx.Scenario
 }
 
 // out notes an outcome class seen in this history run (flushed once per run:
@@ -171,26 +183,28 @@ func (c *run) fail(oracle, class string, s *snap, call, got, want string) {
 	if len(want) > 600 {
 		want = want[:600] + "..."
 	}
-	c.viol = append(c.viol, &caseRec{Family: c.fam.Name, Pad: c.fam.Pad, History: c.names, Variant: c.v.Name, Focus: c.fam.Focus, Height: s.H, Oracle: oracle, Class: class, Call: call, Got: got, Want: want})
+	c.viol = append(c.viol, &caseRec{Kind: c.kind, Top: c.top, Family: c.fam.Name, Pad: c.fam.Pad, History: c.names, Variant: c.v.Name, Focus: c.fam.Focus, Height: s.H, Oracle: oracle, Class: class, Call: call, Got: got, Want: want})
 }
 
 func (r *caseRec) key() string {
+	if r.Kind != "" {
+		return fmt.Sprintf("%s:%s:%s:%s:%s:%s:h%d:%s", r.Oracle, r.Class, r.Kind, r.Family, r.Variant, strings.Join(r.History, ","), r.Height, r.Call)
+	}
 	return fmt.Sprintf("%s:%s:%s:%s:%s:h%d:%s", r.Oracle, r.Class, r.Family, r.Variant, strings.Join(r.History, ","), r.Height, r.Call)
 }
 
-// runHistory executes history h of sc on a fresh replica of variant v and
-// evaluates the oracles. err != nil is a harness problem, not a violation.
-func (cx *ctx) runHistory(sc *chainx.Scenario, fam famSpec, v nodeVariant, h []int) (viol []*caseRec, err error) {
+// newRun starts a fresh replica of variant v for history h of sc.
+func (cx *ctx) newRun(sc *chainx.Scenario, fam famSpec, v nodeVariant, h []int) (*run, error) {
 	opts := fam.Family.Opts()
 	opts.Cfg = v.cfg
 	n, err := chainx.New(opts)
 	if err != nil {
 		return nil, err
 	}
-	defer n.Close()
-	c := &run{cx: cx, fam: fam, v: v, names: sc.Names(h), n: n, w: sc.World.Attach(n), reported: map[string]bool{}, nfail: map[string]int{}, outcomes: map[string]struct{}{}}
+	c := &run{cx: cx, fam: fam, v: v, names: sc.Names(h), n: n, w: sc.World.Attach(n), sc: sc, reported: map[string]bool{}, nfail: map[string]int{}, outcomes: map[string]struct{}{}}
 	c.sm, c.mod = module(n)
 	if c.mod == nil {
+		n.Close()
 		return nil, fmt.Errorf("state module is not *stateroot.Module")
 	}
 	// all ids that may ever hold storage: natives (some are deployed by a
@@ -200,66 +214,56 @@ func (cx *ctx) runHistory(sc *chainx.Scenario, fam famSpec, v nodeVariant, h []i
 			c.ids = append(c.ids, id)
 		}
 	}
-	committee := n.Committee.ScriptHash()
-	take := func() error {
-		height := n.Height()
-		sr, err := n.BC.GetStateRoot(height)
+	return c, nil
+}
+
+// snapNow reads map_H and runs the read-only invocations on the live node.
+func (c *run) snapNow() (*snap, error) {
+	n := c.n
+	height := n.Height()
+	sr, err := n.BC.GetStateRoot(height)
+	if err != nil {
+		return nil, fmt.Errorf("state root of the current height %d: %w", height, err)
+	}
+	s := newSnap(height, sr.Root, dump(n, c.ids))
+	for _, q := range scripts(c.w, height, n.Committee.ScriptHash()) {
+		res, halt, err := invoke(n, q.Script, nil)
 		if err != nil {
-			return fmt.Errorf("state root of the current height %d: %w", height, err)
+			return nil, fmt.Errorf("live invocation %s at %d: %w", q.Name, height, err)
 		}
-		s := newSnap(height, sr.Root, dump(n, c.ids))
-		for _, q := range scripts(c.w, height, committee) {
-			res, halt, err := invoke(n, q.Script, nil)
-			if err != nil {
-				return fmt.Errorf("live invocation %s at %d: %w", q.Name, height, err)
-			}
-			s.Live = append(s.Live, invRes{Name: q.Name, Script: q.Script, Res: res, Halt: halt})
-			cx.c.liveInv.Inc()
-		}
-		c.snaps = append(c.snaps, s)
-		return nil
+		s.Live = append(s.Live, invRes{Name: q.Name, Script: q.Script, Res: res, Halt: halt})
+		c.cx.c.liveInv.Inc()
 	}
-	if err := take(); err != nil {
-		return nil, err
+	return s, nil
+}
+
+// take records what the live node shows at its current height.
+func (c *run) take() error {
+	s, err := c.snapNow()
+	if err != nil {
+		return err
 	}
-	after := func() error {
-		if v.Flush {
-			old := n.BC.VerifPersistedHeight()
-			if err := n.Persist(); err != nil {
-				return fmt.Errorf("flush: %w", err)
-			}
-			if v.GC {
-				n.BC.VerifTryRunGC(old)
-			}
+	c.snaps = append(c.snaps, s)
+	return nil
+}
+
+// flush does what the variant does after every block.
+func (c *run) flush() error {
+	if c.v.Flush {
+		old := c.n.BC.VerifPersistedHeight()
+		if err := c.n.Persist(); err != nil {
+			return fmt.Errorf("flush: %w", err)
 		}
-		return nil
-	}
-	blocks, _ := sc.Blocks(h)
-	for i, bb := range blocks {
-		if err := n.AddBytes(bb); err != nil {
-			return nil, fmt.Errorf("block %d rejected: %w", i+1, err)
-		}
-		cx.c.blocks.Inc()
-		if err := after(); err != nil {
-			return nil, err
-		}
-		if err := take(); err != nil {
-			return nil, err
+		if c.v.GC {
+			c.n.BC.VerifTryRunGC(old)
 		}
 	}
-	for i := 0; i < fam.Tail; i++ {
-		if _, err := n.AddBlock(); err != nil {
-			return nil, fmt.Errorf("tail block %d rejected: %w", i+1, err)
-		}
-		cx.c.blocks.Inc()
-		if err := after(); err != nil {
-			return nil, err
-		}
-		if err := take(); err != nil {
-			return nil, err
-		}
-	}
-	c.evaluate()
+	return nil
+}
+
+// finish hands the run's local counters to the shared ones.
+func (c *run) finish() {
+	cx := c.cx
 	for o := range c.outcomes {
 		cx.r.Outcome(o)
 	}
@@ -272,7 +276,65 @@ func (cx *ctx) runHistory(sc *chainx.Scenario, fam famSpec, v nodeVariant, h []i
 	cx.c.crossProofs.Add(c.loc.crossProofs)
 	cx.c.histInv.Add(c.loc.histInv)
 	cx.c.histInvHalt.Add(c.loc.histInvHalt)
+}
+
+// runHistory executes history h of sc on a fresh replica of variant v and
+// evaluates the oracles. err != nil is a harness problem, not a violation.
+func (cx *ctx) runHistory(sc *chainx.Scenario, fam famSpec, v nodeVariant, h []int) (viol []*caseRec, err error) {
+	c, err := cx.newRun(sc, fam, v, h)
+	if err != nil {
+		return nil, err
+	}
+	defer func() { c.n.Close() }()
+	if err := c.take(); err != nil {
+		return nil, err
+	}
+	blocks, _ := sc.Blocks(h)
+	for i := 0; i < len(blocks)+fam.Tail; i++ {
+		if i < len(blocks) {
+			if err := c.n.AddBytes(blocks[i]); err != nil {
+				return nil, fmt.Errorf("block %d rejected: %w", i+1, err)
+			}
+		} else if _, err := c.n.AddBlock(); err != nil {
+			return nil, fmt.Errorf("tail block %d rejected: %w", i+1-len(blocks), err)
+		}
+		cx.c.blocks.Inc()
+		if err := c.flush(); err != nil {
+			return nil, err
+		}
+		if v.Restart && i == len(blocks)-2 {
+			// a restart in the middle of the history: the module is re-initialised from the store
+			if err := c.restart(); err != nil {
+				return nil, err
+			}
+		}
+		if err := c.take(); err != nil {
+			return nil, err
+		}
+	}
+	if v.Restart {
+		if err := c.restart(); err != nil {
+			return nil, err
+		}
+	}
+	c.evaluate()
+	c.finish()
 	return c.viol, nil
+}
+
+// restart closes the replica (graceful shutdown flushes) and starts a new one on the same store.
+func (c *run) restart() error {
+	m, err := c.n.Reopen()
+	if err != nil {
+		return fmt.Errorf("restart: %w", err)
+	}
+	c.n = m
+	c.w = c.w.Attach(m)
+	c.sm, c.mod = module(m)
+	if c.mod == nil {
+		return fmt.Errorf("state module is not *stateroot.Module")
+	}
+	return nil
 }
 
 // retainedFrom is the lowest height whose state the variant still has to serve.
@@ -290,9 +352,8 @@ func (c *run) retainedFrom() uint32 {
 	return 0
 }
 
-func (c *run) evaluate() {
-	cx := c.cx
-	// key universe: every key present at some height + absent probes
+// buildUniverse computes the key universe: every key present at some height + absent probes.
+func (c *run) buildUniverse() {
 	other := []int32{1, 2, 3, 9, -5}
 	set := map[string]struct{}{}
 	for _, s := range c.snaps {
@@ -334,7 +395,11 @@ func (c *run) evaluate() {
 			}
 		}
 	}
+}
 
+func (c *run) evaluate() {
+	cx := c.cx
+	c.buildUniverse()
 	from := c.retainedFrom()
 	c.proofs = make([]map[string][][]byte, len(c.snaps))
 	for i, s := range c.snaps {
@@ -733,12 +798,11 @@ func (c *run) crossHeight(from uint32) {
 
 func (c *run) historic(s *snap, retained bool) {
 	next := s.H + 1 // GetTestHistoricVM takes the height of the block that would be processed on top of state h
-	if c.v.GC {
-		// docs/rpc.md: with RemoveUntraceableBlocks the behaviour of historic calls
-		// is undefined ("limitations on available data"): a refusal is accepted at
-		// any height, a HALT with other data is not.
-		retained = false
-	}
+	// pruning replicas (RemoveUntraceableBlocks): docs/rpc.md speaks of "limitations
+	// on available data"; the property quantifies over all heights still retained,
+	// so inside the retention window a historic call has to work and to agree
+	// (family "window" found two defects there, repaired in /repo 9f272cc); below
+	// the window a refusal is fine, a HALT with other data is not.
 	for _, q := range s.Live {
 		if c.nfail["O4-historic"]+c.nfail["O4-historic-nonretained"] >= 3 {
 			return
@@ -798,6 +862,13 @@ type job struct {
 	fam famSpec
 	v   nodeVariant
 	h   []int
+	ext *extJob // an extension family's case (ext_*_test.go) instead of a history run
+}
+
+// extJob is one case of an extension family.
+type extJob struct {
+	name string
+	run  func() ([]*caseRec, error)
 }
 
 func TestCheck(t *testing.T) {
@@ -810,6 +881,7 @@ func TestCheck(t *testing.T) {
 	}
 	// plans: quick = A: the quick alphabet at depth 2, S: the quick shape
 	// alphabet (one storage operation per block) at depth 2 on family single;
+	// both tiers: D: the deep-trie alphabet (depth 2 / 3) on the family with the pruning replicas;
 	// thorough = A: the full alphabet at depth 2, B: the quick alphabet at depth
 	// 3 (multi: A only), S: the chain shapes at depth 3 on single and all shapes
 	// at depth 2 on the other single families
@@ -824,14 +896,19 @@ func TestCheck(t *testing.T) {
 	if r.Thorough() {
 		plans = append(plans, plan{name: "B", names: tplNames(false), depth: 3},
 			plan{name: "S3", names: shapeNames("chain"), depth: 3, focus: true, fams: "single"},
-			plan{name: "S2", names: shapeNames("all"), depth: 2, focus: true, fams: "single-srih single-mtb2"})
+			plan{name: "S2", names: shapeNames("all"), depth: 2, focus: true, fams: "single-srih single-mtb2"},
+			plan{name: "D", names: deepNames(), depth: 3, focus: true, fams: "single-srih single-mtb2"})
 	} else {
-		plans = append(plans, plan{name: "S", names: shapeNames("quick"), depth: 2, focus: true, fams: "single"})
+		plans = append(plans, plan{name: "S", names: shapeNames("quick"), depth: 2, focus: true, fams: "single"},
+			plan{name: "D", names: deepNames(), depth: 2, focus: true, fams: "single-mtb2"})
 	}
 	fams := families(r.Thorough())
 	var perFam [][]job
 	hist := 0
 	notApplicable := 0
+	if os.Getenv("C03_DEV_ONLY") == "ext" { // development aid: the extension families only
+		plans = nil
+	}
 	for _, f := range fams {
 		for _, pl := range plans {
 			if f.Depth != 0 && pl.depth > f.Depth {
@@ -861,14 +938,18 @@ func TestCheck(t *testing.T) {
 			for i, h := range hs {
 				hist++
 				for _, v := range variantsOf(f, i, r.Thorough()) {
-					fj = append(fj, job{sc, f, v, h})
+					fj = append(fj, job{sc: sc, fam: f, v: v, h: h})
 				}
 			}
 			perFam = append(perFam, fj)
 		}
 	}
-	// interleave the families so that a run stopped by the deadline has seen all of them
+	// interleave the families so that a run stopped by the deadline has seen all of them;
+	// the (few) cases of the extension families go first
 	var jobs []job
+	for _, e := range extJobs(cx) {
+		jobs = append(jobs, job{ext: e})
+	}
 	for i := 0; ; i++ {
 		more := false
 		for _, fj := range perFam {
@@ -883,6 +964,24 @@ func TestCheck(t *testing.T) {
 	}
 	r.Parallel(len(jobs), func(i int) {
 		j := jobs[i]
+		if j.ext != nil {
+			viol, err := j.ext.run()
+			if err != nil {
+				fmt.Println("CHECK-ERROR:", j.ext.name, err)
+				r.Outcome("harness-error")
+				r.Capped()
+				return
+			}
+			cx.c.extRuns.Inc()
+			if len(viol) == 0 {
+				r.Outcome("ext-agrees:" + strings.SplitN(j.ext.name, ":", 2)[0])
+			}
+			for _, v := range viol {
+				r.Outcome("violation:" + v.Oracle)
+				r.Violation(v.key(), v)
+			}
+			return
+		}
 		viol, err := cx.runHistory(j.sc, j.fam, j.v, j.h)
 		if err != nil {
 			fmt.Println("CHECK-ERROR:", j.fam.Name, j.v.Name, j.sc.Names(j.h), err)
@@ -916,7 +1015,8 @@ func TestCheck(t *testing.T) {
 	r.Finish(map[string]any{
 		"states":                         cx.states.Len(),
 		"transitions":                    int(c.blocks.Get()),
-		"traces_validated_against_impl":  int(c.histRuns.Get()),
+		"traces_validated_against_impl":  int(c.histRuns.Get() + c.extRuns.Get()),
+		"extension_families":             extCoverage(cx),
 		"histories":                      hist,
 		"histories_not_applicable":       notApplicable,
 		"plans":                          planDesc,
@@ -941,7 +1041,7 @@ func TestCheck(t *testing.T) {
 	}, []string{
 		"map_h is read from the live node through Blockchain.SeekStorage over ids -16..-1 and 1..6 (the flat storage, not the trie)",
 		"FindStates/SeekStates/TrieStore.Seek range semantics are taken from their doc comments (ordered map: forwards = keys >= prefix+start ascending, backwards = keys <= prefix+start descending); for an empty FindStates result both ErrNotFound and an empty list are accepted",
-		"pruned variants (RemoveUntraceableBlocks+GC after every flush, KeepOnlyLatestState) are held to O1-O3 for heights >= height-MaxTraceableBlocks (latest: the top height); below that an error / panic / early end of a listing or data equal to map_h is accepted, different data is not; historic invocations on them may be refused at any height (docs/rpc.md: undefined with RemoveUntraceableBlocks, unsupported with KeepOnlyLatestState) but must not HALT with other data",
+		"pruned variants (RemoveUntraceableBlocks+GC after every flush, KeepOnlyLatestState) are held to O1-O3 for heights >= height-MaxTraceableBlocks (latest: the top height); below that an error / panic / early end of a listing or data equal to map_h is accepted, different data is not; historic invocations: with RemoveUntraceableBlocks they must agree for every retained height (docs/rpc.md only warns of limitations on available data) and below the window may be refused or FAULT but must not HALT with other data; with KeepOnlyLatestState they are unsupported",
 		"historic invocations are compared on VM state, stack, gas consumed and fault message; scripts do not read time",
 	})
 }
@@ -954,6 +1054,26 @@ func replay(cx *ctx) {
 		os.Exit(3)
 	}
 	cx.deepAll = true
+	if c.Kind != "" {
+		runs := 0
+		for i := 0; i < 5; i++ {
+			viol, err := replayExt(cx, &c)
+			if err != nil {
+				fmt.Println("replay: harness error:", err)
+				os.Exit(3)
+			}
+			runs++
+			if len(viol) == 0 {
+				fmt.Printf("replay %d: all oracles hold\n", i)
+			}
+			for _, v := range viol {
+				fmt.Printf("replay %d: REPRODUCED %s/%s at height %d: %s got %s want %s\n", i, v.Oracle, v.Class, v.Height, v.Call, v.Got, v.Want)
+				r.Violation(v.key(), v)
+			}
+		}
+		r.Finish(map[string]any{"states": max(cx.states.Len(), 1), "transitions": max(int(cx.c.blocks.Get()), 1), "traces_validated_against_impl": runs}, nil)
+		return
+	}
 	var fam *famSpec
 	for _, f := range families(true) {
 		if f.Name == c.Family {
